@@ -86,9 +86,28 @@ pub fn plan_router(w: &World, knobs: &Knobs, actor: &mut Actor, l: &Ledger) -> V
             sqrt_price_limit_two: limit_two,
         };
         let v2 = rng.chance(1, 2) || knobs.v2_only;
+        // one v2 route in ten is sent by a delegate: the trader approves a second key of theirs on the input account and
+        // that key signs the route (the trader's accounts, the delegate's signature)
+        let delegate = if v2 && rng.chance(1, 10) { Some(world::scratch_key(rng.next_u64(), 77)) } else { None };
+        let mut t = t;
+        let mut approvals: Vec<rt::Ix> = Vec::new();
+        if let Some(d) = delegate {
+            let in_acct = if a_to_b_one { t.owner_one_a } else { t.owner_one_b };
+            let prog = l.get(&in_acct).map(|a| a.owner).unwrap_or(ix::tok());
+            let appr = if prog == ix::tok22() {
+                ix::from_sol(spl_token_2022::instruction::approve(&ix::tok22(), &in_acct, &d, &actor.wallet, &[], u64::MAX).unwrap())
+            } else {
+                ix::from_sol(spl_token::instruction::approve(&ix::tok(), &in_acct, &d, &actor.wallet, &[], u64::MAX).unwrap())
+            };
+            approvals.push(appr);
+            t.authority = d;
+        }
         let build = |a: &TwoHopArgs| if v2 { ix::two_hop_swap_v2(&t, a) } else { ix::two_hop_swap(&t, a) };
         // quote on the current view
         let mut fork = l.clone();
+        if !approvals.is_empty() {
+            let _ = rt::exec_tx_simple(&mut fork, &Tx { ixs: approvals.clone() });
+        }
         let in_acct = if a_to_b_one { t.owner_one_a } else { t.owner_one_b };
         let out_acct = if a_to_b_two { t.owner_two_b } else { t.owner_two_a };
         let (pi, po) = (world::token_amount(&fork, &in_acct), world::token_amount(&fork, &out_acct));
@@ -104,7 +123,10 @@ pub fn plan_router(w: &World, knobs: &Knobs, actor: &mut Actor, l: &Ledger) -> V
                 };
                 args.other_amount_threshold = if is_input { got.saturating_sub(slip) } else { paid.saturating_add(slip) };
             }
-            flow.push((Tx { ixs: vec![build(&args)] }, if v2 { "two_hop_swap_v2".to_string() } else { "two_hop_swap".to_string() }));
+            if !approvals.is_empty() {
+                flow.push((Tx { ixs: approvals.clone() }, "approve a delegate on the input account".to_string()));
+            }
+            flow.push((Tx { ixs: vec![build(&args)] }, if v2 { if delegate.is_some() { "two_hop_swap_v2 (signed by a delegate)".to_string() } else { "two_hop_swap_v2".to_string() } } else { "two_hop_swap".to_string() }));
             break;
         } else if rng.chance(1, 5) {
             flow.push((Tx { ixs: vec![build(&args)] }, if v2 { "two_hop_swap_v2".to_string() } else { "two_hop_swap".to_string() }));
